@@ -47,6 +47,9 @@ def check(chk, fx):
     caprules.cap_t(chk, fx)
     from .. import width
     width.check(chk, fx, classes=("LEN",), minimum=8)
+    from .. import termrules
+    termrules.termapi(chk, fx)
+    termrules.defarg(chk, fx)
     idxrule.report(chk, fx, lambda q: q.startswith(P + "get_current_term") or q.startswith(P + "shift") or
                    q.startswith(P + "context_parse") or q.startswith(P + "syntax_error") or
                    q.startswith(P + "trace_recognized_term") or q.startswith(P + "consume_term"),
